@@ -95,6 +95,11 @@ pub struct TLife {
     /// its expectation: it was installed with `times: n` and received k calls.
     #[serde(default)]
     pub refake: Option<(bool, u8, u8)>,
+    /// matching calls made at the earliest possible moment: when the library flushes the entry
+    /// it has just patched, i.e. before `will_execute` has returned (what a caller on another
+    /// thread can do).  They are served by the fake, so they are calls of this installation.
+    #[serde(default)]
+    pub early: u8,
 }
 
 #[derive(Serialize, Deserialize, Clone, Debug, Hash, PartialEq, Eq)]
@@ -147,6 +152,8 @@ pub struct TLifeObs {
     pub second_outcomes: Vec<CallOut>,
     #[serde(default)]
     pub refake_outcomes: Vec<CallOut>,
+    #[serde(default)]
+    pub early_outcomes: Vec<CallOut>,
     #[serde(default)]
     pub pre_value: Option<u64>,
     pub install_panic: Option<String>,
@@ -300,6 +307,15 @@ pub fn execute(c: &TimesCase) -> TimesObs {
         TIMES[site as usize].store(l.n as usize, SeqCst);
         let pair = if c.prebuilt { table[li].take() } else { None };
         crate::worker::phase("install");
+        let early_out: std::rc::Rc<std::cell::RefCell<Vec<CallOut>>> = Default::default();
+        if l.early > 0 {
+            let (eo, n_early) = (early_out.clone(), l.early.min(3) as u64);
+            ip::set_flush_hook(addrs[site as usize], Box::new(move || {
+                for i in 0..n_early {
+                    eo.borrow_mut().push(do_call(site, true, 900 + i));
+                }
+            }));
+        }
         let r = std::panic::catch_unwind(std::panic::AssertUnwindSafe(|| {
             ip::sut(|| {
                 let mut inj = InjectorPP::new();
@@ -327,6 +343,8 @@ pub fn execute(c: &TimesCase) -> TimesObs {
                 inj
             })
         }));
+        ip::clear_flush_hook();
+        lo.early_outcomes = early_out.borrow().clone();
         let mut inj = match r {
             Ok(i) => i,
             Err(_) => {
@@ -431,8 +449,8 @@ pub fn execute(c: &TimesCase) -> TimesObs {
 pub fn strategy(c07_bias: bool) -> impl Strategy<Value = TimesCase> {
     let n = prop_oneof![6 => 0u16..=8, 1 => Just(64u16), 1 => Just(300u16)];
     let second = prop::option::weighted(if c07_bias { 0.05 } else { 0.3 }, (0u8..N_SITES, 0u8..4, 0u8..5));
-    let extras = (prop::bool::weighted(0.3), prop::option::weighted(if c07_bias { 0.1 } else { 0.3 }, (any::<bool>(), 0u8..4, 0u8..5, any::<bool>())));
-    let life = (0u8..N_SITES, n, 0u16..=12, any::<u64>(), prop_oneof![2 => Just(1u8), 1 => 2u8..=16], prop::bool::weighted(0.2), 0u8..4, second, extras).prop_map(|(site, n, extra_sel, pattern, threads, exit_unwind, nonmatching, second, (pre_uncounted, refake))| {
+    let extras = (prop::bool::weighted(0.3), prop::option::weighted(if c07_bias { 0.1 } else { 0.3 }, (any::<bool>(), 0u8..4, 0u8..5, any::<bool>())), prop_oneof![4 => Just(0u8), 1 => 1u8..=2]);
+    let life = (0u8..N_SITES, n, 0u16..=12, any::<u64>(), prop_oneof![2 => Just(1u8), 1 => 2u8..=16], prop::bool::weighted(0.2), 0u8..4, second, extras).prop_map(|(site, n, extra_sel, pattern, threads, exit_unwind, nonmatching, second, (pre_uncounted, refake, early))| {
         // half of the superseding counted fakes are exactly satisfied
         let refake = refake.map(|(counted, n2, k2, exact)| (counted, n2, if exact && counted { n2 } else { k2 }));
         // k in 0..=n+2 matching calls, j non-matching ones interleaved by `pattern`
@@ -444,7 +462,7 @@ pub fn strategy(c07_bias: bool) -> impl Strategy<Value = TimesCase> {
             let pos = ((pattern >> (x * 8)) as usize) % (calls.len() + 1);
             calls.insert(pos, false);
         }
-        TLife { site, n, calls, threads, exit_unwind, second, pre_uncounted, refake }
+        TLife { site, n, calls, threads, exit_unwind, second, pre_uncounted, refake, early }
     });
     let count = if c07_bias { 2usize..=8 } else { 1usize..=3 };
     (prop::collection::vec(life, count), 0u8..N_SITES, prop::bool::weighted(if c07_bias { 0.8 } else { 0.3 }), prop::bool::weighted(if c07_bias { 0.35 } else { 0.1 })).prop_map(|(mut lifetimes, site, same_site, prebuilt)| {
@@ -508,7 +526,17 @@ pub fn judge(rec: &mut Recorder, c: &TimesCase, ex: Exec, _hello: &Value) -> Res
         if l.pre_uncounted && lo.pre_value != Some(511) {
             return rec.fail(&sig("uncounted-fake-not-in-effect"), ctx(&format!("the uncounted fake installed first returned {:?} for 11, it yields 511", lo.pre_value)));
         }
-        let matching: Vec<&CallOut> = lo.outcomes.iter().filter(|x| x.matching).collect();
+        if l.early > 0 {
+            if lo.early_outcomes.len() != l.early.min(3) as usize {
+                // the library did not flush the patched entry during the installation (C17 judges
+                // that); without the hook there were no early calls
+                rec.class("early-calls/hook-did-not-fire");
+            } else {
+                rec.class("early-calls");
+            }
+        }
+        // calls made while the installation was being completed come first in time
+        let matching: Vec<&CallOut> = lo.early_outcomes.iter().chain(lo.outcomes.iter()).filter(|x| x.matching).collect();
         let non: Vec<&CallOut> = lo.outcomes.iter().filter(|x| !x.matching).collect();
         let k = matching.len();
         // non-matching calls: panic "unexpected arguments", never counted
